@@ -13,6 +13,7 @@ import Driver.C14
 import Driver.C12
 import Driver.C01
 import Driver.C05
+import Driver.C04
 open Lean Driver
 
 def dispatch (p : String) (inp impl : Json) : CaseResult :=
@@ -31,6 +32,7 @@ def dispatch (p : String) (inp impl : Json) : CaseResult :=
   | "C12" => C12.handle inp impl
   | "C01" => C01.handle inp impl
   | "C05" => C05.handle inp impl
+  | "C04" => C04.handle inp impl
   | "C07" => C01.handleC07 inp impl
   | "C03" => Signer.handleC03 inp impl
   | _ => { model := Json.null, spec := false, why := "unknown property " ++ p }
